@@ -49,7 +49,12 @@ def reachFrom (refs : Nat → List Nat) : Nat → List Nat → List Nat → List
 
 /-- the nodes that are still allocated -/
 def State.aliveSet (s : State) : List Nat :=
-  reachFrom s.refsOf (s.nodes.size * (s.nodes.size + 2) + s.roots.length + 8) s.roots []
+  -- every search step either discards an already seen frontier entry or expands a new node, and a node's
+  -- references are pushed once: roots + total number of references bounds the number of steps
+  -- (`Props.C12.search_exact_with_enough_fuel`)
+  reachFrom s.refsOf
+    (s.roots.length + (List.range s.nodes.size).foldl (fun acc n => acc + (s.refsOf n).length) 0 + 8)
+    s.roots []
 
 def State.isAlive (s : State) (n : Nat) : Bool := s.aliveSet.contains n
 
